@@ -672,12 +672,15 @@ def _encode_case(logs, crossing=None, history=None):
     final = logs
     if history is not None:
         logs = _apply_history(final, history)         # the objects that were read once and then extended / revised
+    inp = {"logs": [_j_transcript(tr) for tr in final], "crossing": crossing, "history": history}
     try:
         batch = self_play.encode_games(logs)
+        dims = {k: int(v.shape[0]) for k, v in batch.items()}
+        if len(set(dims.values())) > 1:          # e.g. a stale `moves` tensor: fewer policy rows than positions
+            return None, [], None, [f"rows:tensors-not-row-aligned {dims}"], {"input": inp, "impl_output": [], "row_counts": dims}
         _rows_of(batch)
     except Exception as e:  # noqa  (inside the domain nothing may raise)
-        term, clauses, rp = _crashed(e, {"logs": [_j_transcript(tr) for tr in final], "crossing": crossing,
-                                         "history": history})
+        term, clauses, rp = _crashed(e, inp)
         return None, [], term, clauses, rp
     rows, shapes_ok = _rows_of(batch)
     term = f"({_enc_table(logs)}, {clist([_c_transcript(tr) for tr in logs])}, {clist([_c_orow(r) for r in rows])})"
